@@ -89,13 +89,13 @@ func main() {
 			counts := map[string]int{}
 			for _, r := range mr {
 				counts[r.Status]++
-				if r.Status == "missed" || r.Status == "noisy" || r.Status == "error" || r.Status == "skipped" {
+				if r.Status == "missed" || r.Status == "noisy" || r.Status == "error" || r.Status == "skipped" || r.Status == "limitation" {
 					fmt.Printf("SELFTEST-%s: %s expect=%v fired=%v %s\n", strings.ToUpper(r.Status), r.Name, r.Expect, r.Fired, r.Message)
 				}
 			}
 			fmt.Printf("selftest %s: %d seeded variants: %v\n", id, len(mr), counts)
 			info["selftest"] = map[string]any{"variants": len(mr), "counts": counts, "results": mr,
-				"note": "each variant is an in-memory overlay of /repo's current source analysed in a child process; 'caught' = the expected rule reported it, 'quiet' = behaviour-preserving refactor left the check silent, 'skipped' = the edit no longer applies"}
+				"note": "each variant is an in-memory overlay of /repo's current source analysed in a child process; 'caught' = the expected rule reported it, 'quiet' = behaviour-preserving refactor left the check silent, 'skipped' = the edit no longer applies, 'limitation' = a behaviour-preserving refactoring the rules are known not to see through (false alarm, documented in DESIGN.md 7.6)"}
 		}
 		res := c.Finish(*verif, t0.Add(-time.Duration(loadS*float64(time.Second))), info)
 		if res.Exit > worst {
